@@ -593,8 +593,11 @@ theorem text_truncation_certified (O : Oracle) (M : List Cps) (text : Cps) (doC 
 
 which is the tokenizer's cut property — proved by C05 in this round for the partial-sheet loop
 (`tokenize_cut`, `Lemmas/TokAppend.lean` on branch build3-C05: no separation predicate, the only hypothesis is
-`spans pre = a₁`); the bridge to full-sheet mode (the last item may be completed: `loop_full_prefix`) is open
-there.  Proved here: GIVEN that the two token lists share the prefix `pre`, every rule of the complete
+`spans pre = a₁`) together with the bridge to full-sheet mode (`full_sheet_completion`, Props/C05 §T5.8: the
+full-sheet body is the partial-sheet body, or its prefix up to the ONE token that end-of-input completion
+replaces — INVALID → STRING, FUNCTION `url(` → URI, CHAR `/` → COMMENT).  Both live on the other branch, so
+the composition (`pre` = the partial-sheet tokens before both the boundary `|a₁|` and the completion point)
+is left for after the merge.  Proved here: GIVEN that the two token lists share the prefix `pre`, every rule of the complete
 statements `s₁` inside `pre` is present, in order, unchanged (up to the URI of `@namespace` rules) in the DOM
 of the truncated text AND in the DOM of the full text. -/
 theorem text_truncation_partial (O : Oracle) (M : List Cps) (a b : Cps) (doC : Bool)
